@@ -149,8 +149,10 @@ Lemma subset_indices_range (N : nat) (s : subset) (idx : list nat) :
 Proof.
   destruct s as [a b c|m|l]; simpl.
   - apply slice_indices_range.
-  - destruct (length m =? N) eqn:E; [|discriminate]. apply Nat.eqb_eq in E. intro H. injection H as <-.
-    eapply Forall_impl; [|apply mask_indices_range]. simpl. intros; lia.
+  - destruct ((length m =? N) || (length m =? 0)) eqn:E; [|discriminate]. intro H. injection H as <-.
+    apply orb_true_iff in E. destruct E as [E|E]; apply Nat.eqb_eq in E.
+    + eapply Forall_impl; [|apply mask_indices_range]. simpl. intros; lia.
+    + destruct m; [constructor|discriminate].
   - apply mapM_Forall. intros a b. apply wrap_index_range.
 Qed.
 
@@ -204,9 +206,11 @@ Theorem broadcast_equiv_mask {C : Type} (N : nat) (m : list bool) (lab : list Z)
   process_plot_args N (SMask m) (LList (map (fun i => nth i lab 0%Z) idx)) scheme = process_plot_args N (SMask m) (LList lab) scheme.
 Proof.
   intros Hs Hlen. apply broadcast_equiv; auto.
-  simpl in Hs. destruct (length m =? N) eqn:E; [|discriminate]. apply Nat.eqb_eq in E. injection Hs as <-.
+  simpl in Hs. destruct ((length m =? N) || (length m =? 0)) eqn:E; [|discriminate]. injection Hs as <-.
   destruct (Nat.eq_dec (length (mask_indices 0 m)) N) as [Heq|Hne]; [right|left; exact Hne].
-  rewrite <- E in *. apply mask_indices_full. exact Heq.
+  apply orb_true_iff in E. destruct E as [E|E]; apply Nat.eqb_eq in E.
+  - rewrite <- E in *. apply mask_indices_full. exact Heq.
+  - destruct m; [|discriminate]. simpl in *. rewrite <- Heq. reflexivity.
 Qed.
 
 (* scalar label = constant colour array *)
